@@ -407,6 +407,7 @@ type stakeActs struct {
 	// "slash" = validator slash followed by the dualstaking BeginBlocker.
 	lastKind    string
 	lastSlashed string // operator address of the validator slashed by the last step
+	lastOps     int    // number of staking operations executed by the last step (multi-message tx), 0 = one
 
 	slashesWithProviderDelegations  int
 	cancelOK                        int
